@@ -474,6 +474,7 @@ func expandState(sc *simScenario, req *expandReq) *expandResp {
 		"leaders": s.w.led.stats.leaders, "commits": s.w.led.stats.commits, "elections": s.w.led.stats.elections,
 		"configs": s.w.led.stats.configChanges, "restarts": s.w.led.stats.restarts,
 		"snapshots": s.w.led.stats.snapshots, "compactions": s.w.led.stats.compactions, "linchecks": s.w.led.stats.linChecks, "inforeports": s.w.led.stats.infoReports,
+		"install_keep_log": s.w.led.stats.snapInstalledKeep, "install_reset_log": s.w.led.stats.snapInstalledReset, "install_ignored": s.w.led.stats.snapIgnored,
 	}
 	evs := s.enabled()
 	if sc.Final != "" && (sc.Final != "adversary" || s.w.led.newsAt == s.w.clock) {
